@@ -391,3 +391,23 @@ KEEP += [
                     (CO, "    fn check_required(\n        &self,", "    /// Reporting index of the environment object number k\n    fn env_id(k: usize) -> usize {\n        ENV_START_IDX + k\n    }\n\n    fn check_required(\n        &self,", False)],
      None, ['C10', 'C14'], 'environment index computed by a small helper'),
 ]
+
+KEEP += [
+    ('K101', None, [(C, "    pub fn compliant(&self, angles: &[f64; 6]) -> bool {\n", "    pub fn compliant(&self, angles: &[f64; 6]) -> bool {\n        if cfg!(debug_assertions) && false {\n            println!(\"checking {:?} against {:?}..{:?}\", angles, self.from, self.to);\n        }\n", False),
+                    (K, "        let mut result: Solutions = Vec::with_capacity(8);\n\n        // Debug check. Solution failing cross-verification is flagged\n        // as invalid. This loop also normalizes valid solutions to 0\n        for si in 0..sols.len() {\n            let mut valid = true;\n            for ji in 0..6 {", "        let mut result: Solutions = Vec::with_capacity(8);\n        if DEBUG {\n            println!(\"candidates: {:?}\", sols);\n        }\n\n        // Debug check. Solution failing cross-verification is flagged\n        // as invalid. This loop also normalizes valid solutions to 0\n        for si in 0..sols.len() {\n            let mut valid = true;\n            for ji in 0..6 {", False),
+                    (T, "    fn forward(&self, joints: &Joints) -> Pose {\n        self.base * self.robot.forward(joints)", "    fn forward(&self, joints: &Joints) -> Pose {\n        // the base transform maps robot coordinates into world coordinates\n        self.base * self.robot.forward(joints)", False),
+                    (RT, "        let q_rand = random_sample();\n", "        let q_rand = random_sample();\n        debug!(\"sample = {q_rand:?}\");\n", False)],
+     None, ['C07', 'C08', 'C01', 'C02', 'C09', 'C13'], 'diagnostic output and comments added'),
+    ('K102', None, [(C, "    pub sorting_weight: f64,\n}", "    pub sorting_weight: f64,\n\n    /// Incremented by update_range, lets callers notice changed limits\n    pub revision: u32,\n}", False),
+                    (C, "            sorting_weight: sorting_weight,\n        }", "            sorting_weight: sorting_weight,\n            revision: 0,\n        }", False),
+                    (C, "            tolerances,\n            sorting_weight,\n        }", "            tolerances,\n            sorting_weight,\n            revision: 0,\n        }", False),
+                    (C, "        self.tolerances = tolerances;\n", "        self.tolerances = tolerances;\n        self.revision += 1;\n", False)],
+     None, ['C07', 'C08', 'C18', 'C01', 'C04', 'C20'], 'a field added to Constraints'),
+]
+
+KEEP += [
+    ('K104', None, [(Y, "        // Ensure length is either 5 or 6, and pad with 0 if necessary\n        if offsets.len() == 5 {\n            offsets.push(0.0); // Add 0 as the 6th element\n        }\n\n        if offsets.len() != 6 {\n            return Err(ParameterError::InvalidLength {\n                expected: 6,\n                found: offsets.len(),\n            });\n        }\n\n        let offsets: [f64; 6] = offsets.try_into().unwrap(); // Safe now, we ensured it's of length 6\n        Ok(offsets)", "        Self::six(offsets, 0.0)", False),
+                     (Y, "        // Ensure length is either 5 or 6, and pad with 0 if necessary\n        if sign_corrections.len() == 5 {\n            sign_corrections.push(0); // Add 0 as the 6th element\n        }\n\n        if sign_corrections.len() != 6 {\n            return Err(ParameterError::InvalidLength {\n                expected: 6,\n                found: sign_corrections.len(),\n            });\n        }\n\n        let sign_corrections: [i8; 6] = sign_corrections.try_into().unwrap(); // Safe now, we ensured it's of length 6\n        Ok(sign_corrections)", "        Self::six(sign_corrections, 0)", False),
+                     (Y, "    /// Parses angles from strings in degrees format or plain floats.", "    /// Five entries are padded to six, any other length but six is an error\n    fn six<T: Copy + std::fmt::Debug>(mut values: Vec<T>, fill: T) -> Result<[T; 6], ParameterError> {\n        if values.len() == 5 {\n            values.push(fill);\n        }\n        if values.len() != 6 {\n            return Err(ParameterError::InvalidLength {\n                expected: 6,\n                found: values.len(),\n            });\n        }\n        let array: [T; 6] = values.try_into().unwrap(); // length is 6 here\n        Ok(array)\n    }\n\n    /// Parses angles from strings in degrees format or plain floats.", False)],
+     None, ['C19'], 'padding and length check of both array readers extracted into one generic helper'),
+]
